@@ -91,3 +91,11 @@ add("C33", "floordiv bound to truediv", "nifty/re/tree_math/vector.py", "__floor
 add("C33", "reflected op keeps order", "nifty/re/tree_math/vector.py", "        return _broadcast_binary_op(op, rhs, lhs)", "        return _broadcast_binary_op(op, lhs, rhs)", "R33.1")
 
 VARIANTS = V
+
+add("C18", "mirror flag of another position", "nifty/cl/minimization/sample_list.py", "        return self._m.flexible_addsub(self._r[i], self._n[i])",
+    "        return self._m.flexible_addsub(self._r[i], self._n[i-1])", "R18.1")
+add("C18", "mirrored sample stored pre-negated", "nifty/cl/minimization/kl_energies.py", "                local_samples.append(yi)\n                local_neg.append(neg)",
+    "                local_samples.append(-yi if neg else yi)\n                local_neg.append(neg)", "R18.1")
+add("C19", "residuals shifted when the mean moves", "nifty/cl/minimization/sample_list.py", "        return ResidualSampleList(mean, self._r, self._n, self.comm)",
+    "        return ResidualSampleList(mean, [rr + (self._m - mean) for rr in self._r], self._n, self.comm)", "R19.2")
+VARIANTS = V
